@@ -116,6 +116,8 @@ def call_pcdelta(inp, letters, variant, seed=None):
     if inp["edges"] == []:
         return np.atleast_1d(prs.pcDelta(seqs, seqs2, bins=0))
     kw = dict(bins=(np.array(inp["edges"]) if variant % 2 else list(inp["edges"])), normalize=inp["norm"])
+    if inp["edges"] == list(range(0, 25)):
+        kw.pop("bins")                          # rely on the documented default
     if inp["c"][0]:
         kw["pseudocount"] = inp["c"][0] / inp["c"][1]
     if inp["ms"]:
@@ -204,6 +206,8 @@ def make_sessions(ctx, n):
                 seqs2 = [[nc.enc(a, amap), nc.enc(b, amap)] for a, b in zip(nc.repertoire(ctx.rng, M, maxlen=9), nc.repertoire(ctx.rng, M, maxlen=9))]
         ne = ctx.rng.randint(2, 8)
         edges = sorted(ctx.rng.sample(range(0, 14), ne))
+        if sid % 7 == 3:
+            edges = list(range(0, 25))          # the default bins (bins=None)
         norm = ctx.rng.random() < 0.7
         c = ctx.rng.choice([[0, 1], [0, 1], [1, 2], [1, 1]]) if norm else [0, 1]
         inp = dict(ek=ek, seqs=seqs, two=bool(seqs2), seqs2=seqs2, mk="default", edges=edges, norm=norm, c=c, ms=0)
